@@ -28,6 +28,10 @@ type Op struct {
 	Slot  uint64  `json:"slot,omitempty"`
 	Fetch *uint64 `json:"fetch,omitempty"` // lookup: what the node answers (nil = error)
 	Epoch uint64  `json:"epoch,omitempty"` // clean
+	// lookup with a failing fetch: the kind of error the node/client reports, and whether the
+	// caller's own context is already cancelled.  The property says: always an error, never a slot.
+	ErrKind   string `json:"errkind,omitempty"` // plain | canceled | deadline | wrapped-deadline | api404 | api503
+	CallerCtx string `json:"callerctx,omitempty"` // live (default) | cancelled
 }
 
 type History struct {
@@ -39,14 +43,34 @@ type History struct {
 
 // scripted header provider: answers the next lookup with what the op says.
 type headers struct {
-	next *uint64
-	used bool
+	next    *uint64
+	errKind string
+	used    bool
+}
+
+func failure(kind string) error {
+	switch kind {
+	case "canceled":
+		return context.Canceled
+	case "deadline":
+		return context.DeadlineExceeded
+	case "wrapped-deadline":
+		return fmt.Errorf("failed to call GET endpoint: %w", context.DeadlineExceeded)
+	case "wrapped-canceled":
+		return fmt.Errorf("failed to call GET endpoint: %w", context.Canceled)
+	case "api404":
+		return &api.Error{Method: "GET", Endpoint: "/eth/v1/beacon/headers/0x00", StatusCode: 404, Data: []byte(`{"code":404,"message":"NOT_FOUND"}`)}
+	case "api503":
+		return &api.Error{Method: "GET", Endpoint: "/eth/v1/beacon/headers/0x00", StatusCode: 503, Data: []byte(`{"code":503,"message":"syncing"}`)}
+	default:
+		return errors.New("scripted failure")
+	}
 }
 
 func (h *headers) BeaconBlockHeader(_ context.Context, opts *api.BeaconBlockHeaderOpts) (*api.Response[*apiv1.BeaconBlockHeader], error) {
 	h.used = true
 	if h.next == nil {
-		return nil, errors.New("scripted failure")
+		return nil, failure(h.errKind)
 	}
 	return &api.Response[*apiv1.BeaconBlockHeader]{
 		Data: &apiv1.BeaconBlockHeader{
@@ -89,7 +113,14 @@ func gen(r *Rand) History {
 		default:
 			e = uint64(r.Intn(int(baseEpoch) + 2))
 		}
-		h.Chain[uint64(i)] = e*h.SPE + uint64(r.Intn(int(h.SPE)))
+		off := uint64(r.Intn(int(h.SPE)))
+		if r.Chance(1, 3) {
+			off = 0
+		}
+		if r.Chance(1, 12) {
+			e = baseEpoch + uint64(r.Range(1, 3)) // a block of a later epoch than the clock's (clock skew)
+		}
+		h.Chain[uint64(i)] = e*h.SPE + off
 	}
 	nops := r.Range(5, 60)
 	for i := 0; i < nops; i++ {
@@ -102,6 +133,11 @@ func gen(r *Rand) History {
 			if r.Chance(2, 3) {
 				s := h.Chain[root]
 				op.Fetch = &s
+			} else {
+				op.ErrKind = []string{"plain", "plain", "canceled", "deadline", "wrapped-deadline", "wrapped-canceled", "api404", "api503"}[r.Intn(8)]
+				if r.Chance(1, 5) {
+					op.CallerCtx = "cancelled"
+				}
 			}
 			h.Ops = append(h.Ops, op)
 		default:
@@ -147,8 +183,14 @@ func runHistory(t *testing.T, h History) (outs []string, final [][2]uint64, nont
 			ev.Handlers["block"][0](&apiv1.Event{Topic: "block", Data: &apiv1.BlockEvent{Slot: phase0.Slot(op.Slot), Block: rootOf(op.Root)}})
 			outs = append(outs, "ONone")
 		case "lookup":
-			hp.next, hp.used = op.Fetch, false
-			slot, err := svc.BlockRootToSlot(ctx, rootOf(op.Root))
+			hp.next, hp.errKind, hp.used = op.Fetch, op.ErrKind, false
+			lctx := ctx
+			if op.CallerCtx == "cancelled" {
+				c, cancel := context.WithCancel(ctx)
+				cancel()
+				lctx = c
+			}
+			slot, err := svc.BlockRootToSlot(lctx, rootOf(op.Root))
 			if err != nil {
 				outs = append(outs, "OErr")
 			} else {
@@ -227,7 +269,7 @@ func TestC18(t *testing.T) {
 		for _, op := range h.Ops {
 			col.Count("op:" + op.Kind)
 			if op.Kind == "lookup" && op.Fetch == nil {
-				col.Count("lookup:failing-fetch")
+				col.Count("lookup:failing-fetch:" + op.ErrKind + ":" + op.CallerCtx)
 			}
 		}
 		col.Count(fmt.Sprintf("roots:%d", len(h.Chain)))
